@@ -46,6 +46,12 @@ ObjSet(P) == {<<P.objects[i].name, P.objects[i].type>> : i \in DOMAIN P.objects}
 Report(c, clause, a) == PrintT(<<"FAIL", Corpus[c].cid, clause, a>>)
 
 CostOf(R, ga, st) == IF R.P.metric.kind = "costs" THEN ActCost(R, R.P.metric, ga, st) ELSE NONE
+\* Optional record field length_as_unit_costs (C18; absent = FALSE = the comparison above): PDDL has no
+\* plan-length metric, its writer renders "length" as unit action costs; with the field TRUE a "length"
+\* metric is compared through its metric increments (kind "costs", cost 1 for every action).
+LenAsCosts(c) == "length_as_unit_costs" \in DOMAIN Corpus[c] /\ Corpus[c].length_as_unit_costs
+MKind(c, P) == IF LenAsCosts(c) /\ P.metric.kind = "length" THEN "costs" ELSE P.metric.kind
+CostOfC(c, R, ga, st) == IF LenAsCosts(c) /\ R.P.metric.kind = "length" THEN ONE ELSE CostOf(R, ga, st)
 
 Equivalent ==
    LET c == cid IN
@@ -58,7 +64,7 @@ Equivalent ==
             /\ (ObjSet(Corpus[c].A) = ObjSet(Corpus[c].B) \/ Report(c, "objects-differ", ""))
             /\ (ToA(c, InitSt(RB(c))) = s \/ Report(c, "initial-state-differs", ""))
             /\ (InitOK3(RB(c), InitSt(RB(c))) = InitOK3(RA(c), s) \/ Report(c, "initial-state-validity-differs", ""))
-            /\ (Corpus[c].A.metric.kind = Corpus[c].B.metric.kind \/ Report(c, "metric-kind-differs", "")))
+            /\ (MKind(c, Corpus[c].A) = MKind(c, Corpus[c].B) \/ Report(c, "metric-kind-differs", "")))
       /\ \A ga \in GA \cup GB :
            LET ra == IF ga \in GA THEN Step(RA(c), ga, s) ELSE [ok |-> FALSE, unspec |-> FALSE, s |-> s, why |-> "absent"]
                rb == IF ga \in GB THEN Step(RB(c), ga, sb) ELSE [ok |-> FALSE, unspec |-> FALSE, s |-> sb, why |-> "absent"]
@@ -66,7 +72,7 @@ Equivalent ==
               ELSE IF ra.ok # rb.ok
                    THEN Report(c, "applicability-A-" \o ra.why \o "-B-" \o rb.why, ga.a)
               ELSE IF ra.ok /\ ToA(c, rb.s) # ra.s THEN Report(c, "successor-differs", ga.a)
-              ELSE IF ra.ok /\ ~VEq(CostOf(RA(c), ga, s), CostOf(RB(c), ga, sb)) THEN Report(c, "action-cost-differs", ga.a)
+              ELSE IF ra.ok /\ ~VEq(CostOfC(c, RA(c), ga, s), CostOfC(c, RB(c), ga, sb)) THEN Report(c, "action-cost-differs", ga.a)
               ELSE TRUE
       /\ LET g1 == Goal3(RA(c), s)
              g2 == Goal3(RB(c), sb)
